@@ -110,20 +110,16 @@ def get_alternative_formula(relation: Relation) -> str:
 
 
 def get_mutex_formula(relation: Relation) -> str:
-    formula = []
     parent = relation.parent.name
     children = [child.name for child in relation.children]
-    for child in children:
-        children_negatives = [ch for ch in children if ch != child]
-        children_neg_str = [f"{PLWriter.LogicConnective.NOT.value} " + cn for cn in children_negatives]
-        formula.append(f'{child} {PLWriter.LogicConnective.EQUIVALENCE.value} '
-                       f'({f" {PLWriter.LogicConnective.AND.value} ".join(children_neg_str)} '
-                       f'{PLWriter.LogicConnective.AND.value} {parent})')
-    formula_str = f" {PLWriter.LogicConnective.AND.value} ".join(f'({f})' for f in formula)
-    or_children = f" {PLWriter.LogicConnective.OR.value} ".join(child for child in children)
-    return f'({parent} {PLWriter.LogicConnective.EQUIVALENCE.value} ' \
-           f'{PLWriter.LogicConnective.NOT.value} ({or_children})) ' \
-           f'{PLWriter.LogicConnective.OR.value} ({formula_str})'
+    or_children = f" {PLWriter.LogicConnective.OR.value} ".join(children)
+    # The children need the parent
+    formulas = [f'(({or_children}) {PLWriter.LogicConnective.IMPLIES.value} {parent})']
+    # At most one child can be selected
+    for child1, child2 in itertools.combinations(children, 2):
+        formulas.append(f'({PLWriter.LogicConnective.NOT.value} '
+                        f'({child1} {PLWriter.LogicConnective.AND.value} {child2}))')
+    return f" {PLWriter.LogicConnective.AND.value} ".join(formulas)
 
 
 def get_cardinality_formula(relation: Relation) -> str:
